@@ -253,7 +253,11 @@ def labeled (q : Rat) (qt : Nat → Nat → Rat) (x : Mat Nat) (m n : Nat) (unde
 
 /-- path construction of `_augment_result` (proportional.py L635-642): triples `(d, p, d')` meaning one seat
     more in cell `(d, p)` and one seat less in cell `(d', p)`.  Popping an empty (default) set is a `KeyError`;
-    a path that runs in a cycle pops an emptied set, modelled by running out of fuel. -/
+    a path that runs in a cycle pops an emptied set, modelled by running out of fuel.
+    The end test `not in districts_over` is applied to district nodes only.  The Python loop (as of 636e21e) also
+    applies it to the party nodes, which is the same thing exactly when no party bears the name of a district in
+    `districts_over`; with clashing names the path is cut short there (finding C07-F4, repair
+    notes/fix_C07_party_district_name_clash.diff makes the code test district nodes only, as modelled here). -/
 def augPath (labD : LabD) (labP : LabP) (over : List Nat) : Nat → Nat → Except Err (List (Nat × Nat × Nat))
   | 0, _ => .error (.other "KeyError")
   | f+1, d =>
